@@ -16,7 +16,7 @@ RECURSIVE Vars(_), VarsOfSeq(_, _), VarsOfKw(_, _)
 Vars(e) ==
     CASE e[1] = "v" -> {e[2]}
       [] e[1] \in {"c", "cb", "cx", "none", "s", "x"} -> {}
-      [] e[1] \in {"sum", "prod", "and", "or", "min", "max", "tuple"} -> VarsOfSeq(e[2], 1)
+      [] e[1] \in {"sum", "prod", "and", "or", "min", "max", "tuple", "nparr"} -> VarsOfSeq(e[2], 1)
       [] e[1] \in {"pow", "quot", "fdiv", "rem"} -> Vars(e[2]) \cup Vars(e[3])
       [] e[1] = "cmp" -> Vars(e[3]) \cup Vars(e[4])
       [] e[1] = "not" -> Vars(e[2])
